@@ -1,7 +1,8 @@
 """C02 -- partition-improving algorithms keep a valid partition valid."""
 PROP = dict(
     bin="c02",
-    run_targets=["Run/RunC02.vo"],
+    run_targets=["Run/RunC02.vo", "Run/RunKM.vo"],
+    extra_bins=[dict(bin="c02km", cases=dict(quick=640, thorough=3200))],
     prop_targets=["Properties/C02.vo"],
     cases=dict(quick=3500, thorough=40000),
     level="proof",
